@@ -187,6 +187,7 @@ def base_layout(**kw):
 
 
 METAS = [[("h",), ("i",)], [("h",), ("i",), ("f", 40)], [("h",), ("f", 64), ("i",)], [("h",), ("f", 16), ("i",), ("f", 32)],
+         [("h",), ("f", 100), ("f", 30), ("i",)],
          [("i",), ("f", 0)], [("i",)], [("f", 2000), ("i",), ("o", 12)], [("h",), ("i",), ("o", 9), ("f", 30)],
          [("h",), ("o", 5), ("i",), ("f", 1500)]]
 NONADJ_META = [("i",), ("h",), ("f", 50)]
@@ -418,7 +419,12 @@ def oracle_step(ctx, info, before, after, exc, expect_tags):
                                expected=o0 + delta, media_before=before[o0:o0 + 8].hex(), media_after=after[o1:o1 + 8].hex())
             else:
                 ctx.count("oracle:entry-inside-region")
-    msg = foreign_preserved(KINDS["MP4"], w0, w1)
+    # free atoms inside meta that are not adjacent to ilst count as foreign for the walker, but which ones are adjacent
+    # changes when the save moves the padding behind ilst: compare everything except those (they are still covered by the
+    # tiling check above and by the byte-exact correspondence)
+    def nofree(w):
+        return dict(w, foreign=[(lab, b) for lab, b in w["foreign"] if lab != "moov/udta/meta/free"])
+    msg = foreign_preserved(KINDS["MP4"], nofree(w0), nofree(w1))
     if msg:
         cls = classify_structure(before, after)
         if cls == "nonadjacent-free":
